@@ -178,6 +178,11 @@ func genC12(rc *RunCtx) (*C1, *c12Info, bool) {
 		lead := t.Bytes(1 + t.Choose(3))
 		if t.Choose(3) == 0 {
 			lead = append([]byte(nil), good[max(0, n-len(lead)):]...) // the tail of a frame like this one
+		} else if t.Choose(2) == 0 {
+			// what an idle or released line produces: break bytes and mark bytes
+			for i := range lead {
+				lead[i] = []byte{0x00, 0xFF}[(int(lead[i])>>4)&1]
+			}
 		}
 		bad = append(lead, bad...)
 	case 8: // the two CRC bytes arrive in the wrong order (a device or gateway that appends the CRC high byte first)
@@ -252,6 +257,27 @@ func runC12(rc *RunCtx) {
 			good.Fault = FNone
 			calls = []*C1{&good, sc}
 			infos = []*c12Info{{Corruption: "none"}, info}
+			if t.Chance(1, 3) {
+				// the line is quiet for a while between the two exchanges
+				sc.IdleBefore = time.Duration(200+t.Choose(2800)) * time.Millisecond
+			}
+		}
+		if len(calls) == 1 && sc.Fault == FStall && t.Chance(1, 150) {
+			// a long history on one client: healthy exchanges of all sizes, and after each of them the same corrupted
+			// reply again - wherever the client keeps received bytes, no position in it may let the bad frame through
+			n := historyLen(t)
+			hist := genHistory(rc, sc, n, false)
+			calls, infos = nil, nil
+			for _, h := range hist {
+				bad := *sc
+				bad.Then = nil
+				calls = append(calls, h, &bad)
+				infos = append(infos, &c12Info{Corruption: "none"}, info)
+			}
+			calls = append(calls, sc)
+			infos = append(infos, info)
+			rc.longRun = true
+			defer func() { rc.longRun = false }()
 		}
 	}
 	for i := 0; i+1 < len(calls); i++ {
